@@ -503,6 +503,14 @@ def history_st(draw, tier):
             acl["max_ncwb"] = 30
             draw(st.sampled_from(aces))["rec"]["src"] = {"k": "wild", "b": 0x08000001, "w": 0x03FFFE00 | (draw(st.integers(0, 255)) << 1 & ~1)}
     ops = draw(st.lists(op_st(acl["platform"]), min_size=4, max_size=25 if tier == "quick" else 40))
+    if draw(st.sampled_from(range(6))) == 4 and not acl["group_by"]:
+        # copies of one entry that differ in the destination port only (a name against a number, numbers of
+        # different length), then sort() twice
+        tcp = [i for i, it in enumerate(acl["items"]) if it["t"] == "ace" and it["rec"]["proto"] in (6, 17)]
+        if tcp:
+            i = draw(st.sampled_from(tcp))
+            tail = [["twin", i, draw(st.sampled_from([80, 443, 22, 9, 100, 1812, 123, 8080]))] for _ in range(draw(st.integers(1, 2)))]
+            ops = ops[: draw(st.integers(0, 3))] + tail + [["sort_twice"]] + ops[3:]
     if draw(st.sampled_from(range(5))) == 2:
         # several independent (covering entry, covered entry) pairs in one ACL, interleaved in every way, and
         # shadow removal early in the history
